@@ -84,7 +84,8 @@ func (o *object) regExpValue() regExpObject {
 }
 
 func execRegExp(this *object, target string) (bool, []int) {
-	if this.class != classRegExpName {
+	if this.class != classRegExpName || this.regExpValue().regularExpression == nil {
+		// RegExp.prototype has the class but no compiled expression.
 		panic(this.runtime.panicTypeError("Calling RegExp.exec on a non-RegExp object"))
 	}
 	lastIndex := this.get("lastIndex").number().int64
